@@ -529,6 +529,8 @@ func FunctionMap() map[string]physical.FunctionDetails {
 
 							needsEscaping := func(r rune) bool {
 								return r == '+' ||
+									r == '*' ||
+									r == '|' ||
 									r == '?' ||
 									r == '(' ||
 									r == ')' ||
